@@ -20,6 +20,7 @@ import OnlVerif.Tcp.SenderOnKReplay
 import OnlVerif.Net.VCOnKReplay
 import OnlVerif.Net.WFQOnKReplay
 import OnlVerif.Net.NetworkReplay
+import OnlVerif.Net.REDOnKReplay
 /-! Line-protocol driver: `driver <mode>` reads cases on stdin and prints the model's observations. -/
 
 def main (args : List String) : IO UInt32 := do
@@ -48,4 +49,5 @@ def main (args : List String) : IO UInt32 := do
   | ["vck"] => vckLoop stdin; return 0
   | ["wfqk"] => wfqkLoop stdin; return 0
   | ["net"] => netLoop stdin; return 0
+  | ["redk"] => redkLoop stdin; return 0
   | _ => IO.eprintln "usage: driver <kernel|fifo|gensink|timer|rt|…>"; return 2
